@@ -9,6 +9,30 @@ DEFAULT_NOTE = ('Trusted: Coq 8.16.1 kernel (incl. vm_compute; no native_compute
                 'the Go harness, canonicaliser and constant translator; the Go toolchain and standard library. All of afero is modelled, '
                 'not verified: the theorems are about hand-written Gallina models tied to /repo by the per-run correspondence check, the '
                 'constants regenerated from the source on every run, and the Go-side property oracle. See DESIGN.md 3.7.')
+
+LEVEL_TEXT = {
+ 'C01': 'Coq theorems over the faithful MemMapFs model (coq/Model/MemFs.v): child-index invariant WF preserved by every well-formed op sequence, failed calls are no-ops, listing/paging, rename moves subtrees, spelling (clean) invariance, and a simulation against an independent POSIX spec (coq/Model/Posix.v). Tie: every generated sequence (well-formed and malformed) is run on the real MemMapFs and on the extracted model incl. full dumps of the path map and child index; oracle: the same well-formed program on OsFs in a fresh temp dir (step results + final Stat/ReadDir/ReadFile sweep).',
+ 'C02': 'Coq refinement theorem: for all contents, handle sets and op sequences the model of mem.File equals the flat byte-array spec (ByteFile.v) under projection, never panics, inert handles never change data. Tie: differential run of mem.File (direct handles and through MemMapFs) against model and spec, exhaustive over short sequences.',
+ 'C03': 'PARTIAL. Coq model of the lock discipline of memmap.go/mem/file.go (sections between lock operations) with theorems over all schedules (no deadlock, no unlock error, lockset, quiescent consistency on the single-section fragment); the Go memory model and scheduler are outside the model: supported by a -race stress harness in child processes, a lock-sequence table extracted from the source each run, and a post-quiescence consistency sweep.',
+ 'C04': 'PARTIAL. Coq theorem: every history of a machine whose calls take effect in one atomic step of the sequential model is linearizable (any threads, any schedule); multi-section methods are treated by explicit section abstractions. Tie/search: concurrent histories of the real MemMapFs are recorded and searched for a linearization against the EXTRACTED sequential model (Wing-Gong in OCaml) plus direct checks of the exactly-one-winner and torn-read clauses.',
+ 'C05': 'Coq theorems for ANY base satisfying contract K and any overlay: every call CopyOnWriteFs/UnionFile/copy-up makes on the base is one a ReadOnlyFs would forward, hence the base view is frozen over all op sequences and flag words; K proved for MemMapFs. Tie: cow(mem,mem) differential against the model; oracle: deep snapshot of the base before/after every step incl. all 4096 combinations of 12 O_* bits.',
+ 'C06': 'Coq theorems over arbitrary inner filesystems: lookup is overlay-then-base, merged listing is duplicate-free union with overlay winning, pages partition the listing, Readdir(-1) consumes it; copy-up/write-read-back proved for MemMapFs layers under stated shape hypotheses (_partial). Tie + oracle: union view compared with overlay-over-base computed from direct dumps of both layers after every step, listings in pages.',
+ 'C07': 'Coq theorems for ANY source with contract K (proved for MemMapFs, inherited through BasePathFs/ReadOnlyFs): mutators return EPERM without consulting the source, reads are transparent, the source view is frozen over all op sequences and all integer flag values. Tie: differential on ro(mem), ro(bp(mem)), ro(ro(mem)); oracle: deep source snapshot per step, flag sweep.',
+ 'C08': 'Coq theorems for every root and every name string: RealPath results lie segment-wise below the cleaned root (incl. nested roots, Symlink/Lstat/Readlink names, httpDir targets), the wrapper makes one forwarded call whose names are all confined, escaping names are refused without touching the source. Tie: exhaustive RealPath/httpDir comparison on short names, op sequences with prefix-sharing siblings; oracle: everything outside the root unchanged and never leaked.',
+ 'C09': 'Coq theorems: for in-root names each BasePathFs op equals the source op with Clean(Join(D,name)), Name() is the path relative to D, stacking equals the joined root (for names/roots that never step up; counterexample otherwise), FullBaseFsPath is the joined path. Tie + oracle: twin MemMapFs with joined paths, per-step equality and equal final snapshots.',
+ 'C10': 'Coq theorems on the CacheOnReadFs model: cacheStatus classifies by the three rules of the property for all times/durations, Open by status, first read leaves an identical copy with the base mtime (MemMapFs layers), duration zero never consults the base. Tie: cache:0 / cache:1000 stacks with explicit past mtimes; oracle implements the three rules on observed bytes.',
+ 'C11': 'Coq theorems: union handles keep base and layer offsets aligned under Read/Write/Seek/WriteAt/Truncate/ReadAt, mutators reach base then layer. Tie: well-formed programs through the union from coherent pairs; oracle: every cache file equals the base file after every step, reads through the union equal the base.',
+ 'C12': 'Coq theorem over ALL single-fault plans (every call index, error/short write/early EOF) on the copy-up model with MemMapFs layers: the layer entry is absent, the old copy or the complete new copy, and incomplete copies report an error. Tie: Go fault injector with the same call numbering (call traces compared), exhaustive single-fault enumeration for cow and cache callers.',
+ 'C13': 'Coq theorems for any source and matcher: ops naming a hidden regular file are refused making only Stat probes (so nothing Stat preserves can change), listings from Open/OpenFile handles are filtered, matching files and directories are transparent; MemMapFs instance: snapshot unchanged. Tie + oracle: deep snapshots of every non-matching file per step, leaks in results, transparency sweep; patterns compared with package regexp.',
+ 'C14': 'Coq theorems for all archives and read programs: reads through any interleaving of handles equal the read-only byte-array spec, no panics, entries found under cleaned names, listings are exactly the children, mutators fail without effect (zipfs and tarfs models). Tie: archives written with archive/zip (Store, Deflate) and archive/tar; oracle: the known entry list.',
+ 'C15': 'Coq theorems on the IOFS/FromIOFS model: ValidPath characterisation and rejection, sorted complete ReadDir, paging, read/seek/ReadAt agreement (via C02), FromIOFS rejects every mutation. Tie: direct clause checks on generated trees and stacks; search oracle: testing/fstest.TestFS and the generic io/fs helpers.',
+ 'C16': 'Coq theorems: afero.Walk = filepath.Walk as functions of (tree, root, callback machine, state) for all inputs; afero.Glob = filepath.Glob for all well-formed escape-free patterns (both transcribed from source, Match shared). Tie: afero on MemMapFs/BasePathFs/CopyOnWriteFs and the real path/filepath on a mirrored temp dir against both transcriptions.',
+ 'C17': 'Coq theorems: the windowed search equals bytes.Contains on non-empty needles for every content, needle list and even window factor; WriteFile/WriteReader/SafeWriteReader followed by ReadFile return the bytes given on the MemMapFs model, SafeWriteReader leaves existing files untouched. Tie: exhaustive small contents/needles, boundary-planted matches, payload sizes 0..70000 over wrapper stacks.',
+ 'C18': 'Coq theorems: candidate names have the documented shape, a successful TempFile/TempDir name is fresh, inside the directory, and nothing else changes (contract form + MemMapFs instance), successive successes are pairwise distinct for any pre-existing set; the concurrent clause reduces to atomic exclusive create (C04). Tie: LCG constants from the source, VerifSetRandNum so model and code draw the same candidates, pre-created colliding candidates, real concurrent callers on MemMapFs and OsFs.',
+ 'C19': 'Coq theorems on the sftpfs model over an SFTP server model: server content is exactly what the reported write counts account for, reads/seeks/stat equal the byte-array spec, MkdirAll creates ancestors, rename/remove/stat delegate. Tie: sftpfs over an in-process pkg/sftp request server, server content read back through a second client; oracle from reported counts only.',
+ 'C20': 'Coq theorems on the gcsfs model over an object-store model: C20_data_exact for all in-class op sequences (store holds the byte-array result after Close, reads return it), folder and listing theorems, Remove/RemoveAll (partly _partial). Tie: gcsfs over an injected in-memory object store with GCS semantics; oracle: object bytes read directly from the store.',
+}
+
 for p in props:
     pid = p['id']
     plug = os.path.join(ROOT, 'checks', pid.lower() + '.py')
@@ -23,7 +47,7 @@ for p in props:
                 'replay_cmd_template': './check %s --replay {path}' % pid,
                 'engine': 'coq-proof+correspondence',
                 'level_claimed': {'category': 'proof',
-                                  'text': cfg.get('level_text', 'Coq theorems (coq/%s) over a Gallina model of the code, for all inputs/op sequences; '
+                                  'text': cfg.get('level_text', LEVEL_TEXT.get(pid) or 'Coq theorems (coq/%s) over a Gallina model of the code, for all inputs/op sequences; '
                                                   'the model is tied to /repo on every run by a differential correspondence check and the property '
                                                   'oracle is evaluated on the implementation itself.' % cfg['props_file']),
                                   'design_ref': 'DESIGN.md section 6, ' + pid},
